@@ -61,6 +61,7 @@ RULE = ('grid (direct calls, ring-pair space covered exhaustively in both '
         'witness: hand-written minimal pair for the split corner. A case is '
         'non-trivial when at least one checked pair has different duct and '
         'gap meshes; distinct by (kind, ring counts, ducts, pattern)')
+RULE += (' Later rounds added: duct pairs written (outer, inner); perimeters from the input; shared edge-cell widths; convection constants; the duct->gap use site.')
 DECIDING = ['M1_nonneg', 'M2_const_gap2duct', 'M2_const_duct2gap',
             'M3_detailed_balance', 'M3_detailed_balance_split_corner',
             'M4_integral_gap2duct', 'M4_integral_duct2gap',
